@@ -274,9 +274,13 @@ theorem resolveIx_spec (s : CState) (mc : MCache) (phases : Option (List Char)) 
       | error e => exact ⟨rfl, h2, h3, h4, by intro ps hp; cases hp⟩
   | some ps =>
     simp only
-    obtain ⟨h1, h2, h3, h4, h5⟩ := lookupM_spec s mc ps h (hm ps rfl) (normM key)
+    cases hn : normM key with
+    | error e => exact ⟨rfl, rfl, rfl, h, by intro ps' hp; cases hp; exact hm ps rfl⟩
+    | ok k =>
+    simp only
+    obtain ⟨h1, h2, h3, h4, h5⟩ := lookupM_spec s mc ps h (hm ps rfl) k
     rw [← h1]
-    generalize lookupM s mc ps (normM key) = L at h1 h2 h3 h4 h5
+    generalize lookupM s mc ps k = L at h1 h2 h3 h4 h5
     obtain ⟨r, s', mc'⟩ := L
     cases r with
     | ok v => exact ⟨rfl, h2, h3, h4, by intro ps' hp; cases hp; exact h5⟩
